@@ -428,3 +428,22 @@ MUTANTS["C16"] = [
     M("finish-early-return-too-wide", PBR, "        if self._step == self._max and not self._should_overwrite:\n            return\n", "        if self._step == self._max:\n            return\n", expect="C16-R4"),
     M("twin-max-test-swapped", PBR, "        if step == self._max:\n            self.display()\n\n            return\n", "        if self._max == step:\n            self.display()\n            return\n", twin=True),
 ]
+
+ABH = "src/clikit/ui/help/abstract_help.py"
+APH = "src/clikit/ui/help/application_help.py"
+CMH = "src/clikit/ui/help/command_help.py"
+
+MUTANTS["C13"] = [
+    M("f11-regression", ABH, '        description = option.description or ""\n', "        description = option.description\n", expect="C13-R1"),
+    M("help-unnarrowed", CMH, "        if help:\n            self._render_description(layout, help)\n", "        self._render_description(layout, help)\n", expect="C13-R1"),
+    M("hidden-test-removed-app", APH, "        if command.config.is_hidden():\n            return\n\n        description = command.config.description", "        description = command.config.description", expect="C13-R2"),
+    M("hidden-test-removed-usage", CMH, "        for sub_command in command.sub_commands:\n            if sub_command.config.is_hidden():\n                continue\n", "        for sub_command in command.sub_commands:\n", expect="C13-R2"),
+    M("k5-regression", CMH, "        for sub_command in command.default_sub_commands:\n            if sub_command.config.is_hidden():\n                continue\n", "        for sub_command in command.default_sub_commands:\n", expect="C13-R2"),
+    M("own-options-only", CMH, "        if args_format.base_format and args_format.base_format.has_options():\n            self._render_global_options(\n                layout, args_format.base_format.get_options().values()\n            )\n\n", "", expect="C13-R3"),
+    M("own-arguments-only", CMH, "self._render_arguments(layout, args_format.get_arguments().values())", "self._render_arguments(layout, args_format.get_arguments(False).values())", expect="C13-R3"),
+    M("layout-cached-on-self", ABH, "        layout = BlockLayout()\n\n        self._render_help(layout)\n\n        layout.render(io, indentation)", "        if not hasattr(self, \"_layout\"):\n            self._layout = BlockLayout()\n        layout = self._layout\n\n        self._render_help(layout)\n\n        layout.render(io, indentation)", expect="C13-R4"),
+    M("alternative-name-dropped", ABH, "        if alternative_name:\n            name += \" ({})\".format(alternative_name)\n\n", "", expect="C13-R3"),
+    M("twin-is-not-none", ABH, '        description = argument.description or ""\n', "        description = argument.description\n        if description is None:\n            description = \"\"\n", twin=True),
+    M("twin-hidden-positive-form", APH, "        if command.config.is_hidden():\n            return\n\n        description = command.config.description\n        name = \"<c1>{}</c1>\".format(command.name)\n\n        layout.add(LabeledParagraph(name, description))",
+      "        if not command.config.is_hidden():\n            description = command.config.description\n            name = \"<c1>{}</c1>\".format(command.name)\n\n            layout.add(LabeledParagraph(name, description))", twin=True),
+]
